@@ -43,3 +43,30 @@ theorem c12_close_pinned_witness :
     sd'.sm.broken = false ∧ sd'.sm.conns = [true] := by decide
 
 end C12
+
+/-! ## a stream refused for a full accept backlog is told so
+
+Since /repo's follow-up to 31ee1ad the refused stream is registered, counted and closed from this side
+(`Gen.Session.refusedStreamClosedActively`): the peer gets a stream-closing frame, so its writes fail and its readers
+return instead of waiting on a stream nobody will ever serve (the review of the fix commits found the silent
+refusal). The session model follows the fact; the closing frames each side has put on the wire are part of the state the
+correspondence compares after every operation (`sent=`). -/
+namespace C12
+open SM
+
+theorem gen_refusal : Gen.Session.refusedStreamClosedActively = true ∧ Gen.Session.recvEnqueueNonBlocking = true := by decide
+
+/-- a side whose accept queue holds `acceptBacklog` streams receives the first frame of yet another stream -/
+def fullSide : SO.Side :=
+  { sm := { accq := List.replicate Gen.Session.acceptBacklog.toNat 9, tbl := [(9, .opn)], count := 1 } }
+
+/-- the refusal in the model: one closing frame goes out, the id is a tombstone afterwards, the count and the queue are
+what they were, the frame's payload is dropped, and later frames of that stream are dropped too -/
+theorem c12_refused_is_told :
+    let r := SO.recv fullSide 77 0 0 [1, 2, 3] 0 1000
+    r.2 = "dropped" ∧ r.1.csent = fullSide.csent + 1 ∧ SO.entOf r.1 77 = some .tomb ∧
+    r.1.sm.count = fullSide.sm.count ∧ r.1.sm.accq.length = fullSide.sm.accq.length ∧
+    (SO.recv r.1 77 1 0 [4] 0 1000).2 = "dropped" ∧ (SO.recv r.1 77 1 0 [4] 0 1000).1.csent = r.1.csent := by
+  set_option maxRecDepth 100000 in decide
+
+end C12
